@@ -14,10 +14,15 @@ package props
 
 import (
 	"fmt"
+	"os"
+	"path/filepath"
+	"runtime/pprof"
 	"strings"
 	"sync"
 	"sync/atomic"
 	"time"
+
+	"mosn.io/mosn/pkg/verifhook"
 
 	"verif/harness/lab"
 )
@@ -32,7 +37,13 @@ func c10ClusterExtra(name string) jmap {
 	case strings.HasSuffix(name, "-lim"):
 		return jmap{"circuit_breakers": []jmap{{"max_connections": 1000, "max_pending_requests": 1000, "max_requests": 3, "max_retries": 1000}}}
 	case strings.HasSuffix(name, "-one"):
-		return jmap{"circuit_breakers": []jmap{{"max_connections": 1000, "max_pending_requests": 1000, "max_requests": 1000, "max_retries": 1}}}
+		mc := 1000
+		if !strings.Contains(name, "Http1") {
+			// the multiplexed pools size their connection table by max_connections and walk it round robin per request:
+			// with 1 every request of the cluster shares one upstream connection (needed by the go-away scenario)
+			mc = 1
+		}
+		return jmap{"circuit_breakers": []jmap{{"max_connections": mc, "max_pending_requests": 1000, "max_requests": 1000, "max_retries": 1}}}
 	}
 	return jmap{"circuit_breakers": []jmap{{"max_connections": 1000, "max_pending_requests": 1000, "max_requests": 1000, "max_retries": 1000}}}
 }
@@ -41,17 +52,21 @@ func c10Routes(proto string) []routeSpec {
 	rs := c03Routes(proto)
 	rs = append(rs,
 		routeSpec{Key: "lim", Cluster: "cl-$P-lim", Extra: jmap{"timeout": "3s"}},
+		routeSpec{Key: "gaw", Cluster: "cl-$P-one", Extra: jmap{"timeout": "3s"}},
 		routeSpec{Key: "oneretry", Cluster: "cl-$P-one", Extra: jmap{"timeout": "3s", "retry_policy": jmap{"retry_on": true, "retry_timeout": "1s", "num_retries": 3}}},
 	)
 	return rs
 }
 
 func c10Engine(c *lab.Ctx) {
-	c.Rule("running MOSN with counted breaker resources; histories of mixed outcomes at concurrency 8 x 3 protocols; continuous sign sampling, conservation at quiescence, threshold trip tests (max_requests=3, max_retries=1); distinct = (protocol, route, plan class, outcome) + book signatures")
+	c.Rule("running MOSN with counted breaker resources; histories of mixed outcomes at concurrency 8 x 3 protocols; continuous sign sampling, conservation at quiescence, a go-away connection closed with three requests in flight on it, threshold trip tests (max_requests=3, max_retries=1); distinct = (protocol, route, plan class, outcome) + book signatures")
 	e, err := newEngine(c, engineProtos, c10Routes, c10ClusterExtra, nil)
 	if err != nil {
 		c.Require("mosn started", false, err.Error())
 		return
+	}
+	if os.Getenv("VERIF_C10_TRACE") != "" {
+		c10Trace.install()
 	}
 	clusters := []string{}
 	for _, p := range engineProtos {
@@ -140,6 +155,11 @@ func c10Engine(c *lab.Ctx) {
 		// (2) conservation at quiescence
 		c10Conservation(c, e, clusters, fmt.Sprintf("after round %d", round), false)
 	}
+	// (2b) a go-away connection that is closed while requests are still in flight on it
+	for _, proto := range engineProtos {
+		c10GoAwayInflight(c, e, proto)
+		c10Conservation(c, e, clusters, "after go-away with requests in flight "+proto, false)
+	}
 	// (3) threshold tests, one protocol at a time, nothing else running
 	for _, proto := range engineProtos {
 		c10Threshold(c, e, proto)
@@ -227,6 +247,13 @@ func c10Conservation(c *lab.Ctx, e *engine, clusters []string, when string, peer
 				time.Sleep(200 * time.Millisecond)
 				open, counted = sockets(), count(activeBooks())
 			}
+			if counted != open && os.Getenv("VERIF_C10_TRACE") != "" {
+				fmt.Fprintf(os.Stderr, "TRACE unbalanced multiplex connections: %v\n", c10Trace.unbalanced())
+				if f, err := os.Create(filepath.Join(c.Out, fmt.Sprintf("goroutines-%d.txt", time.Now().UnixNano()))); err == nil {
+					_ = pprof.Lookup("goroutine").WriteTo(f, 2)
+					f.Close()
+				}
+			}
 			if counted != open {
 				c.Violation("connection-books-match-sockets", "C10/connection-gauge-vs-sockets/"+p,
 					fmt.Sprintf("%s: clusters of %s count %d active upstream connections, the kernel shows %d established connections to those upstream ports", when, p, counted, open), map[string]interface{}{"when": when, "books": nonZero(books)})
@@ -252,6 +279,89 @@ func c10Conservation(c *lab.Ctx, e *engine, clusters []string, when string, peer
 }
 
 // c10Threshold: max_requests = 3 on cl-<proto>-lim (route "lim", timeout 3s).
+// c10GoAwayInflight: on cluster -one (a single upstream host, so multiplexed protocols share one connection) three slow requests
+// are in flight when a fourth is answered with a go-away announcement and the upstream closes the connection 150 ms later.
+// Whatever the in-flight requests end as, every resource they hold must be given back (judged by the conservation check that
+// follows) and the proxy must keep serving that cluster.
+func c10GoAwayInflight(c *lab.Ctx, e *engine, proto string) {
+	for rep := 0; rep < 3; rep++ {
+		c.Case("c10 go-away with requests in flight %s #%d", proto, rep)
+		var wg sync.WaitGroup
+		// one downstream connection for all four requests: the multiplexed pools give each downstream connection its own
+		// upstream connection slot, so sharing the downstream connection is what makes them share the upstream one
+		shared := e.newClient(proto, fmt.Sprintf("%s-gaw-%d", proto, rep))
+		for k := 0; k < 3; k++ {
+			wg.Add(1)
+			go func(k int) {
+				defer wg.Done()
+				cl := shared
+				if proto == "Http1" {
+					cl = e.newClient(proto, fmt.Sprintf("%s-gaw-%d-%d", proto, rep, k))
+					defer cl.close()
+				}
+				r := reqFor(proto, "gaw", fmt.Sprintf("gaw-%d-%s-%d-%d", c.Batch, proto, rep, k), "d900:ok")
+				r.Timeout = 5 * time.Second
+				ev := cl.do(r)
+				c.Distinct(fmt.Sprintf("goaway-inflight|%s|held|%s%d", proto, ev.Kind, ev.Status))
+				if os.Getenv("VERIF_C10_TRACE") != "" {
+					fmt.Fprintf(os.Stderr, "TRACE goaway-inflight %s holder %d: %s %d %s\n", proto, k, ev.Kind, ev.Status, ev.Err)
+				}
+			}(k)
+		}
+		tok := fmt.Sprintf("gaw-%d-%s-%d-first", c.Batch, proto, rep)
+		deadline := time.Now().Add(3 * time.Second)
+		for time.Now().Before(deadline) { // the holders have reached the upstream
+			n := 0
+			for k := 0; k < 3; k++ {
+				if len(e.log.upsFor(fmt.Sprintf("gaw-%d-%s-%d-%d", c.Batch, proto, rep, k))) > 0 {
+					n++
+				}
+			}
+			if n == 3 {
+				break
+			}
+			time.Sleep(5 * time.Millisecond)
+		}
+		cl := shared
+		if proto == "Http1" {
+			cl = e.newClient(proto, fmt.Sprintf("%s-gaw-%d-first", proto, rep))
+		}
+		ev := cl.do(reqFor(proto, "gaw", tok, "ok:goaway"))
+		if proto == "Http1" {
+			cl.close()
+		}
+		c.Eval(1)
+		c.Distinct(fmt.Sprintf("goaway-inflight|%s|announcer|%s%d", proto, ev.Kind, ev.Status))
+		if os.Getenv("VERIF_C10_TRACE") != "" {
+			fmt.Fprintf(os.Stderr, "TRACE goaway-inflight %s announcer: %s %d %s; holders' upstream conns %v, announcer's %v\n", proto, ev.Kind, ev.Status, ev.Err,
+				func() (o []int64) {
+					for k := 0; k < 3; k++ {
+						for _, u := range e.log.upsFor(fmt.Sprintf("gaw-%d-%s-%d-%d", c.Batch, proto, rep, k)) {
+							o = append(o, u.Conn)
+						}
+					}
+					return
+				}(), func() (o []int64) {
+					for _, u := range e.log.upsFor(tok) {
+						o = append(o, u.Conn)
+					}
+					return
+				}())
+		}
+		wg.Wait()
+		shared.close()
+		// the cluster must still be served afterwards
+		cl2 := e.newClient(proto, fmt.Sprintf("%s-gaw-%d-after", proto, rep))
+		tok2 := fmt.Sprintf("gaw-%d-%s-%d-after", c.Batch, proto, rep)
+		ev2 := cl2.do(reqFor(proto, "gaw", tok2, "ok"))
+		cl2.close()
+		if !(ev2.Kind == "response" && ev2.BodyToken == tok2) {
+			c.Violation("limits-trip-at-thresholds", "C10/goaway-inflight/cluster-unusable-afterwards/"+proto,
+				fmt.Sprintf("%s: after an upstream connection went away with requests in flight, a new request to the same cluster ended as %s %d %s", proto, ev2.Kind, ev2.Status, ev2.Err), nil)
+		}
+	}
+}
+
 func c10Threshold(c *lab.Ctx, e *engine, proto string) {
 	const L = 3
 	c.Case("threshold %s max_requests=%d", proto, L)
@@ -414,4 +524,46 @@ func c10RetryThreshold(c *lab.Ctx, e *engine, proto string) {
 		c.Violation("limit-trips-at-threshold", "C10/threshold/retry-capacity-not-freed/"+proto,
 			fmt.Sprintf("%s: after the in-flight retry completed, a new request was not retried (%d attempt(s), outcome %s %d)", proto, n, evC.Kind, evC.Status), nil)
 	}
+}
+
+// c10Trace: optional diagnosis (VERIF_C10_TRACE=1): per multiplex-pool connection the sequence of gauge increments and
+// connection events, from the hook points in the pool; never part of a verdict.
+type c10TraceT struct {
+	mu sync.Mutex
+	ev map[uint64][]string
+}
+
+var c10Trace = &c10TraceT{ev: map[uint64][]string{}}
+
+func (t *c10TraceT) install() {
+	h := func(name string, id uint64) {
+		t.mu.Lock()
+		t.ev[id] = append(t.ev[id], fmt.Sprintf("%s@%d", strings.TrimPrefix(name, "xprotocol.multiplex."), time.Now().UnixNano()/1e6%100000))
+		t.mu.Unlock()
+	}
+	verifhook.Set("xprotocol.multiplex.connActive.inc", h)
+	for _, e := range []string{"LocalClose", "RemoteClose", "OnReadErrClose", "OnWriteErrClose", "OnConnect", "ConnectedFlag", "ConnectTimeout", "ConnectFailed", "OnReadTimeout", "OnWriteTimeout", "OnShutdown"} {
+		verifhook.Set("xprotocol.multiplex.connEvent."+e, h)
+	}
+}
+
+func (t *c10TraceT) unbalanced() map[uint64][]string {
+	t.mu.Lock()
+	defer t.mu.Unlock()
+	out := map[uint64][]string{}
+	for id, evs := range t.ev {
+		inc, cl := 0, 0
+		for _, e := range evs {
+			if strings.HasPrefix(e, "connActive.inc") {
+				inc++
+			}
+			if strings.Contains(e, "Close@") || strings.Contains(e, "OnWriteTimeout@") {
+				cl++
+			}
+		}
+		if inc != cl {
+			out[id] = evs
+		}
+	}
+	return out
 }
